@@ -524,8 +524,10 @@ class Gen:
             return ['meth', self.str_lit(ascii_only=True) if self.chance(60) else ['str', self.pick(WORDS), 's'], self.pick(['to_lower', 'to_upper']), []]
         if m == 4:
             n = self.i(3)
-            args = [[None, R.lit_of(self.draw(st.integers(-8, 12)))] for _ in range(n)]
-            return ['meth', self.e(STR, d - 1), 'substring', args]
+            # boundary values (0 as start AND as end, -1, 1) as often as arbitrary offsets
+            args = [[None, R.lit_of(self.draw(st.one_of(st.sampled_from([0, 0, 0, 1, -1, 2]), st.integers(-8, 12))))] for _ in range(n)]
+            recv = ['str', self.pick(WORDS + ['foobar', 'abc']), 's'] if self.chance(50) else self.e(STR, d - 1)
+            return ['meth', recv, 'substring', args]
         if m == 5:
             sep = self.e(STR, d - 1) if self.chance(30) else ['str', self.pick([' ', ':', ', ', '', '/', '.']), 's']
             if self.chance(60):
